@@ -391,6 +391,9 @@ pub fn run(tier: &str) -> i32 {
                     replicas: 0,
                     stagger_ms: 0,
                     hc_stall: false,
+                    // a third of the scenarios with statement caching on and a cache smaller than
+                    // the number of distinct named statements the clients prepare
+                    cache: if i % 3 == 2 { 3 } else { 0 },
                 },
                 i % 3 == 1,
             )
